@@ -33,7 +33,11 @@ def invoke(kind, tool, args, cwd, target=None, stdin=b""):
         p = subprocess.run(cmd + list(args), cwd=cwd, env=P.env(), capture_output=True, timeout=120, input=stdin)
         return p.returncode, p.stdout.decode(errors="replace"), p.stderr.decode(errors="replace")
     except subprocess.TimeoutExpired:
-        return -999, "", "timeout"
+        try:  # loaded machine: once more with a long guard before calling it a hang
+            p = subprocess.run(cmd + list(args), cwd=cwd, env=P.env(), capture_output=True, timeout=600, input=stdin)
+            return p.returncode, p.stdout.decode(errors="replace"), p.stderr.decode(errors="replace")
+        except subprocess.TimeoutExpired:
+            return -999, "", "timeout"
 
 
 def fresh_world(ctx, tool):
